@@ -709,7 +709,7 @@ pub fn gen_program(rng: &mut Rng, max_ops: usize, allow_fftfloat: bool) -> Progr
                 0 => Op::XorConst(1),
                 1 => Op::Nrzi,
                 2 => Op::Descramble,
-                3 => Op::Delay(rng.range(0, 70)),
+                3 => Op::Delay(if rng.chance(1, 3) { rng.range(0, 2 * ccap) } else { rng.range(0, 70) }),
                 4 => Op::Skip(rng.range(0, 70)),
                 5 => Op::Resample(rng.range(1, 4), rng.range(1, 4)),
                 6 => Op::CacTag(gen_bits(rng, 8)),
@@ -719,7 +719,7 @@ pub fn gen_program(rng: &mut Rng, max_ops: usize, allow_fftfloat: bool) -> Progr
             },
             Ty::Bytes => match rng.below(6) {
                 0 => Op::XorConst(rng.next() as u8),
-                1 => Op::Delay(rng.range(0, 70)),
+                1 => Op::Delay(if rng.chance(1, 3) { rng.range(0, 2 * ccap) } else { rng.range(0, 70) }),
                 2 => Op::Skip(rng.range(0, 70)),
                 3 => Op::Resample(rng.range(1, 4), rng.range(1, 4)),
                 4 => Op::Diamond(gen_branch(rng, ty, ccap), gen_branch(rng, ty, ccap), 0),
@@ -733,7 +733,7 @@ pub fn gen_program(rng: &mut Rng, max_ops: usize, allow_fftfloat: bool) -> Progr
                 4 if allow_fftfloat => Op::FftFiltF((0..fft_ntaps(rng, ccap / 2)).map(|_| rng.f32_unit()).collect()),
                 5 => Op::IirF(rng.f32_unit().abs()),
                 6 => Op::Hilbert(rng.range(1, 20) * 2 + 1),
-                7 => Op::Delay(rng.range(0, 70)),
+                7 => Op::Delay(if rng.chance(1, 3) { rng.range(0, 2 * ccap) } else { rng.range(0, 70) }),
                 8 => Op::Skip(rng.range(0, 70)),
                 9 => Op::Resample(rng.range(1, 4), rng.range(1, 4)),
                 10 => Op::Diamond(gen_branch(rng, ty, ccap), gen_branch(rng, ty, ccap), rng.below(2) as u8),
